@@ -28,7 +28,8 @@ def main():
     try:
         with vlib.CoqLock():
             ctx.step_consts()
-            ctx.step_coq()
+            if not ctx.step_coq():
+                ctx.second_chance()
             if hasattr(mod, "build_model"):
                 mod.build_model(ctx)
         mod.run(ctx)
